@@ -236,8 +236,18 @@ func families(tier string) []fw.Family {
 	tri3r := single(oracle.ContoursModRotation(L3, 3))
 	quad3r := single(oracle.ContoursModRotation(L3, 4))
 	holedQ, rectsQ := rectilinear(5, [][2]bool{{true, false}})
+	// zero-area contours (collinear vertex triples) of L4: spikes that start inside the partner
+	var spikes4 [][][]oracle.Pt
+	for _, c := range oracle.ContoursModRotation(oracle.Lattice(4), 3) {
+		if oracle.Orient(c[0], c[1], c[2]) == 0 {
+			spikes4 = append(spikes4, [][]oracle.Pt{c})
+		}
+	}
+	tri4q := single(oracle.ContoursModRotation(oracle.Lattice(4), 3))
 	var fs []fw.Family
 	fs = append(fs,
+		pairFamily("tri(L4)/rot x zero-area spikes(L4)", tri4q, spikes4, 1, oracle.Pt{}, 1e-8, 1e-6, false),
+		pairFamily("zero-area spikes(L4) x tri(L4)/rot", spikes4, tri4q, 1, oracle.Pt{}, 1e-8, 1e-6, false),
 		pairFamily("tri(L3)xtri(L3)", tri3, tri3, 1, oracle.Pt{}, 1e-8, 1e-6, false),
 		pairFamily("rectilinear-holed(L5)xrect(L5)", holedQ, rectsQ, 1, oracle.Pt{}, 1e-8, 1e-6, false),
 		pairFamily("rect(L5)xrectilinear-holed(L5)", rectsQ, holedQ, 1, oracle.Pt{}, 1e-8, 1e-6, false),
